@@ -351,22 +351,27 @@ def run_case(case, ctx):
         sample['deviations'] = [d['known'] or d['mech'] for d in devs]
         return _finish(ctx, outcome(classes=sorted(classes), nontrivial=len(texts) >= 2, fp=fp, dev=devs, monitors=mon, sample=sample))
     found = check_identities(case, o, T, devs, mon)
+    mechs = [m for m, _ in found]
     if found and case['kind'] == 'element' and case['prop'] != 1:
-        # buggy twin of the recorded defect: formula unit taken as ONE atom although the rows use `proportion` atoms.
-        # known only if the observation satisfies *every* identity of the twin model.
-        if not check_identities(case, o, T, devs, dict(mon), twin='element-unit-mass'):
-            devs.append(dev('element-proportion-not-in-formula-unit', dict(found=[m for m, _ in found], proportion=case['prop'],
+        # buggy twin of the recorded defect: the formula unit is taken as ONE atom although the rows use `proportion` atoms.
+        # The identities that fail under the statement's model but hold under the twin model are explained by the defect,
+        # provided its signature (rho = n * m_atom) is among them; whatever fails under both models is reported as new.
+        twin = {m for m, _ in check_identities(case, o, T, devs, dict(mon), twin='element-unit-mass')}
+        explained = [m for m in mechs if m not in twin]
+        if 'rho-differs-from-n-times-formula-unit-mass' in explained:
+            devs.append(dev('element-proportion-not-in-formula-unit', dict(explained=explained, proportion=case['prop'],
                                                                               rho=o['rho'], n=o['n'], rows=o['rows']), known=KEY_EP))
-            found = []
-    if [m for m, _ in found] == ['given-number-density-not-preserved'] and case.get('form') == 'dict' and len(o['rows']) >= 2:
+            found = [(m, d) for m, d in found if m in twin]
+    if 'given-number-density-not-preserved' in mechs and case.get('form') == 'dict' and len(o['rows']) >= 2:
         # buggy twin of the recorded defect: components of a dict are added one by one and the densities are re-derived after
         # each; after the first component rho = n_given * a_1 * m_1 is stored and from then on n is re-derived from that rho.
         first = list(given_amounts(case))[0]
         rho_twin = case['dens'][1] * given_amounts(case)[first] * o['masses'][first] * T.da_g
         if close(o['rho'], rho_twin, RTOL):
-            devs.append(dev('given-number-density-not-preserved', dict(found[0][1], rho_reported=o['rho'],
-                                                                      rho_from_first_component_only=rho_twin), known=KEY_ND))
-            found = []
+            detail = dict([d for m, d in found if m == 'given-number-density-not-preserved'][0])
+            detail.update(rho_reported=o['rho'], rho_from_first_component_only=rho_twin)
+            devs.append(dev('given-number-density-not-preserved', detail, known=KEY_ND))
+            found = [(m, d) for m, d in found if m != 'given-number-density-not-preserved']
     for mech, detail in found:
         devs.append(dev(mech, detail))
     sample.update(observed=dict(rho_g_cm3=o['rho'], n_cm3=o['n'], mass_g=o['mass'], rows=o['rows'], sum_row=o['sum']))
